@@ -20,6 +20,7 @@ pub enum RuntimeError {
     InputPastEndOfFile,
     LinterError(LintError),
     OutOfData,
+    OutOfStringSpace,
     Overflow,
     ReturnWithoutGoSub,
     SubscriptOutOfRange,
@@ -38,6 +39,7 @@ impl RuntimeError {
             Self::SubscriptOutOfRange => 9,
             Self::DivisionByZero => 11,
             Self::TypeMismatch => 13,
+            Self::OutOfStringSpace => 14,
             Self::OutOfData => 4,
             Self::ResumeWithoutError => 20,
             Self::VariableRequired => 40,
@@ -67,6 +69,7 @@ impl From<LintError> for RuntimeError {
             LintError::Overflow => Self::Overflow,
             LintError::TypeMismatch => Self::TypeMismatch,
             LintError::DivisionByZero => Self::DivisionByZero,
+            LintError::OutOfStringSpace => Self::OutOfStringSpace,
             _ => Self::LinterError(e),
         }
     }
@@ -88,6 +91,7 @@ impl From<VariantError> for RuntimeError {
     fn from(e: VariantError) -> Self {
         match e {
             VariantError::DivisionByZero => Self::DivisionByZero,
+            VariantError::OutOfStringSpace => Self::OutOfStringSpace,
             VariantError::Overflow => Self::Overflow,
             VariantError::TypeMismatch => Self::TypeMismatch,
         }
